@@ -1806,7 +1806,12 @@ func (r *Raft) applyLoop() {
 	defer r.wg.Done()
 
 	for r.state != Shutdown {
-		r.applyCond.Wait()
+		// Only wait if there is nothing to apply. A signal that is sent while this loop is not
+		// waiting would otherwise be lost, and the entries that have been committed would not
+		// be applied until the commit index is updated again.
+		if r.lastApplied >= r.commitIndex {
+			r.applyCond.Wait()
+		}
 
 		// Scan the log starting at the entry following the last applied entry
 		// and apply any entries that have been committed.
